@@ -375,4 +375,45 @@ func agreeLevels(a, b opResult) string {
 	return ""
 }
 
+// reuseDifferential: an operator instance that has already served one request (first) must answer
+// another request (second) exactly like a fresh instance initialised from the same node does.
+// Returns a description of the difference or "".
+func reuseDifferential(opType string, node *onnx.NodeProto, first, second []tensor.Tensor) string {
+	fresh := runOp(opType, node, cloneTs(second))
+	op, err := opset13.GetOperator(opType)
+	if err != nil || op.Init(node) != nil {
+		return ""
+	}
+	apply := func(ins []tensor.Tensor) (r opResult) {
+		defer func() {
+			if p := recover(); p != nil {
+				r.panicked, r.panicVal = true, p
+			}
+		}()
+		v, err := op.ValidateInputs(ins)
+		if err == nil {
+			v, err = op.Apply(v)
+		}
+		r.outs, r.err = v, err
+		return
+	}
+	_ = apply(cloneTs(first))
+	reused := apply(cloneTs(second))
+	if fresh.panicked != reused.panicked || (fresh.err == nil) != (reused.err == nil) {
+		return fmt.Sprintf("fresh instance: %v; instance that served another request before: %v", fresh, reused)
+	}
+	if !fresh.ok() {
+		return ""
+	}
+	if len(fresh.outs) != len(reused.outs) {
+		return "output count differs"
+	}
+	for i := range fresh.outs {
+		if d := approxSame(reused.outs[i], fresh.outs[i], 1e-5); d != "" {
+			return fmt.Sprintf("output %d of the instance that served another request before differs from a fresh instance: %s", i, d)
+		}
+	}
+	return ""
+}
+
 func getOperator(name string) (ops.Operator, error) { return opset13.GetOperator(name) }
